@@ -157,9 +157,17 @@ func NewKeyUsage(critical bool, flags KeyUsage) pkix.Extension {
 	content := make([]byte, 1)
 	content[0] = uint8(flags & 0xFE) //lowest bit must be zero
 
+	//DER: a named bit list ends with its last set bit
+	bitLength := 0
+	for i := 0; i < 8; i++ {
+		if content[0]&(0x80>>i) != 0 {
+			bitLength = i + 1
+		}
+	}
+
 	bs := asn1.BitString{
-		Bytes:     content,
-		BitLength: 7,
+		Bytes:     content[:(bitLength+7)/8],
+		BitLength: bitLength,
 	}
 
 	//disard error since we control the data
